@@ -60,6 +60,9 @@ typedef struct vthread {
   uint64_t run_len;
   int idle_rounds;
   uint64_t last_G;
+  int parked_idle;    // suspended inside the idle epoll_wait
+  int confirm_polls;  // idle polls done as the confirmation runner
+  int confirmed;
   int in_op;
   // TSO
   sb_entry_t sb[SB_MAX];
@@ -99,6 +102,8 @@ static struct {
   int replay_diverged;
   // progress
   uint64_t G;
+  int confirm_active;
+  uint64_t confirm_G;
   vs_quiescence_fn qcb;
   int timer_fd;
   uint64_t ticks_delivered, ticks_read;
@@ -519,6 +524,18 @@ static void record_decision(int tid) {
 static void switch_to(vthread_t* nt) {
   vthread_t* ot = vs.cur;
   if (nt == ot) return;
+  // replay: a switch the engine performs on its own (quiescence confirmation
+  // hand-over) is in the recorded list too - consume it
+  if (vs.cfg.strategy == VS_STRAT_REPLAY && !vs.replay_diverged && vs.replay_idx < vs.cfg.n_replay &&
+      vs.cfg.replay_points[vs.replay_idx] == (uint32_t)vs.points && vs.cfg.replay_tids[vs.replay_idx] == nt->id) {
+    vs.replay_idx++;
+    uint64_t base = vs.points & ~0xffffffffull;
+    if (vs.replay_idx < vs.cfg.n_replay) {
+      uint64_t pnext = base | vs.cfg.replay_points[vs.replay_idx];
+      if (pnext < vs.points) pnext += 1ull << 32;
+      vs.next_event = pnext;
+    }
+  }
   record_decision(nt->id);
   vs_res->switches++;
   ot->saved_errno = errno;
@@ -610,6 +627,7 @@ static void budget_check(void) {
 static void forced_yield(void) {
   if (!vs.active) return;
   budget_check();
+  vs.confirm_active = 0;
   vthread_t* nt = 0;
   if (vs.cfg.tso) {
     tso_capture(vs.cur);
@@ -636,6 +654,13 @@ static void forced_yield(void) {
 
 static void slow_path(void) {
   budget_check();
+  if (vs.confirm_active) {
+    if (vs.G == vs.confirm_G) {
+      vs.next_event = vs.points + 64;
+      return;
+    }
+    vs.confirm_active = 0;
+  }
   if (!vs.fair && vs.points > vs.cfg.soft_budget && vs.cfg.strategy != VS_STRAT_REPLAY) engage_fair();
   if (vs.cfg.strategy == VS_STRAT_REPLAY && !vs.replay_diverged) {
     int tid = replay_take();
@@ -767,6 +792,7 @@ static void thread_finish(void) {
   t->state = 3;
   for (int i = 0; i < vs.nth; i++)
     if (vs.th[i].state == 2 && vs.th[i].join_target == t->id) vs.th[i].state = 1;
+  vs.points++;
   for (;;) {
     vthread_t* nt = 0;
     if (vs.cfg.strategy == VS_STRAT_REPLAY && !vs.replay_diverged) {
@@ -820,6 +846,7 @@ int vs_thread_create(void* (*fn)(void*), void* arg) {
   vs.in_rt--;
   // PCT: a newly created higher-priority thread runs at once
   if (vs.active && !vs.in_rt) {
+    vs.points++;  // engine events get a point of their own so that replay can tell them apart
     if (vs.cfg.strategy == VS_STRAT_PCT && !vs.fair) {
       vthread_t* nt = pick_highest();
       if (nt != vs.cur) switch_to(nt);
@@ -842,6 +869,7 @@ void vs_thread_join(int tid) {
   while (vs.th[tid].state != 3) {
     t->state = 2;
     t->join_target = tid;
+    vs.points++;
     vthread_t* nt = 0;
     if (vs.cfg.strategy == VS_STRAT_REPLAY && !vs.replay_diverged) {
       int r = replay_take();
@@ -904,6 +932,7 @@ int vs_run_inproc(const vs_config_t* cfg, vs_main_fn fn, void* arg) {
   vs.replay_idx = 0;
   vs.replay_diverged = 0;
   vs.G = 0;
+  vs.confirm_active = 0;
   vs.qcb = 0;
   vs.ticks_delivered = vs.ticks_read = 0;
   vs.in_rt = 0;
@@ -1340,6 +1369,7 @@ int epoll_wait(int epfd, struct epoll_event* ev, int maxev, int timeout) {
   int n = (int)syscall(SYS_epoll_pwait, epfd, ev, maxev, 0, 0, 8);
   if (n > 0) {
     vs.G++;
+    vs.confirm_active = 0;
     t->idle_rounds = 0;
     t->last_G = vs.G;
     return n;
@@ -1348,22 +1378,59 @@ int epoll_wait(int epfd, struct epoll_event* ev, int maxev, int timeout) {
   if (t->last_G == vs.G) {
     t->idle_rounds++;
   } else {
-    t->idle_rounds = 0;
+    t->idle_rounds = 1;
     t->last_G = vs.G;
   }
-  int quiet = 1;
-  for (int i = 0; i < vs.nth; i++) {
-    vthread_t* u = &vs.th[i];
-    if (u->state == 3 || u->state == 0) continue;
-    if (u->state != 1 || u->idle_rounds < 4 || u->last_G != vs.G || u->sb_n) quiet = 0;
-  }
-  if (quiet && vs.qcb) {
+  // Quiescence = a state in which every kernel thread, one after the other and
+  // with all others parked in their idle poll, runs a complete iteration of its
+  // idle loop (steal attempt, run-queue check, both polls) and finds nothing.
+  if (vs.confirm_active && vs.G != vs.confirm_G) vs.confirm_active = 0;
+  if (vs.confirm_active) {
+    // only the confirmation runner executes while a confirmation is active
+    t->confirm_polls++;
+    if (t->confirm_polls < 3) return 0;
+    t->confirmed = 1;
+    vthread_t* next = 0;
+    for (int i = 0; i < vs.nth; i++) {
+      vthread_t* u = &vs.th[i];
+      if (u->state == 1 && !u->confirmed) {
+        next = u;
+        break;
+      }
+    }
+    if (next) {
+      next->confirm_polls = 0;
+      t->parked_idle = 1;
+      switch_to(next);
+      t->parked_idle = 0;
+      return 0;
+    }
+    // everybody confirmed
+    vs.confirm_active = 0;
     for (int i = 0; i < vs.nth; i++) vs.th[i].idle_rounds = 0;
-    vs.G++;  // nobody else may conclude quiescence while the callback runs
-    vs.qcb();
+    vs.G++;
+    if (vs.qcb) vs.qcb();
     return 0;
   }
+  int can_start = vs.qcb != 0 && t->idle_rounds >= 2;
+  for (int i = 0; i < vs.nth && can_start; i++) {
+    vthread_t* u = &vs.th[i];
+    if (u == t || u->state == 3 || u->state == 0) continue;
+    if (u->state != 1 || !u->parked_idle || u->idle_rounds < 2 || u->last_G != vs.G || u->sb_n) can_start = 0;
+  }
+  if (can_start) {
+    vs.confirm_active = 1;
+    vs.confirm_G = vs.G;
+    for (int i = 0; i < vs.nth; i++) {
+      vs.th[i].confirmed = 0;
+      vs.th[i].confirm_polls = 0;
+    }
+    vs.next_event = vs.points + 64;
+    return 0;  // this thread is the first runner
+  }
+  t->parked_idle = 1;
   forced_yield();
+  t->parked_idle = 0;
   return 0;
 }
 int epoll_pwait(int epfd, struct epoll_event* ev, int maxev, int timeout, const sigset_t* ss) {
